@@ -121,7 +121,11 @@ var checks = map[string]*check{
 		req:         []string{"Sqrt:perfect-square", "Sqrt:irrational", "Sqrt:even-exp", "Sqrt:odd-exp", "Sqrt:prec0", "Sqrt:zprec<xprec", "Sqrt:zprec>xprec", "Sqrt:nan", "Sqrt:zero", "Sqrt:inf"},
 	},
 	"C06": {
-		id: "C06", models: []model{}, trace: "Trace_Core", batch: 2,
+		id: "C06", trace: "Trace_Core", batch: 2,
+		models: []model{
+			{mod: "MC_Algo", quick: map[string]string{"Bs": "4", "ULen": "5", "VLen": "3"}, thorough: map[string]string{"Bs": "4", "ULen": "7", "VLen": "4"}},
+			{mod: "MC_Algo", quick: map[string]string{"Bs": "10", "ULen": "3", "VLen": "2"}, thorough: map[string]string{"Bs": "10", "ULen": "4", "VLen": "3"}},
+			{mod: "MC_Algo", quick: map[string]string{"Bs": "4", "ULen": "5", "VLen": "3", "AddBackWraps": "FALSE"}, expectViolation: "Inv"}},
 		gen: func(g *gen.G, thor bool) []gen.Program {
 			return append(gen.Nat(g, n(thor, 24, 160), n(thor, 40, 120)), gen.BigOps(g, n(thor, 10, 60))...)
 		},
